@@ -27,7 +27,7 @@ type policyTracer struct {
 // policy stored in .certVerify on every path reaching instruction at in fn.
 func (t *policyTracer) attached(fn *ssa.Function, v ssa.Value, at ssa.Instruction, depth int) (bool, []string) {
 	P := t.c.P
-	if depth > 6 {
+	if depth > 12 {
 		return false, []string{"trace depth exceeded"}
 	}
 	key := fmt.Sprintf("%p|%p|%p", fn, v, at)
